@@ -8,10 +8,11 @@ From Coq Require Import Arith.
 
 (* 0 = no guard; otherwise the number of the finding class the operation lies in.
    Limited clear (audit round: narrowed): limit 0 only meets clear-limit-zero (the trie is not
-   looked at, so the prefix does not matter); for limit > 0 the order guard is evaluated on the keys
-   the Go code matches, and prefix-trim only when the trimmed prefix changes the result
-   (guard_trim_limit: one of the [limit] smallest keys the code matches lacks the byte prefix, or
-   the "none remain" flags differ) — not whenever some stored key matches the trimmed prefix only. *)
+   looked at, so the prefix does not matter); for limit > 0 prefix-trim only when the trimmed prefix
+   changes the map's answer (guard_trim_limit: one of the [limit] smallest keys the code matches lacks
+   the byte prefix, or the "none remain" flags differ) — not whenever some stored key matches the
+   trimmed prefix only — and otherwise the order guard, evaluated on the keys the Go code matches
+   (round 3: in this order, so that class 5 is exactly the region where exactness is proved). *)
 Definition guard_of (m : bmap) (t : trie) (o : op) : nat :=
   match o with
   | OpGet k => if guard_get_exhausted t k then 1 else 0
@@ -20,8 +21,8 @@ Definition guard_of (m : bmap) (t : trie) (o : op) : nat :=
   | OpClear p => if guard_trim m p then 3 else 0
   | OpClearLimit p l =>
     if (l =? 0)%N then (if guard_limit_zero m p l then 4 else 0)
-    else if guard_limit_order_go m p l then 5
     else if guard_trim_limit m p l then 3
+    else if guard_limit_order_go m p l then 5
     else 0
   | _ => 0
   end.
